@@ -67,6 +67,15 @@ func KitchenSink() []*Doc {
 		d.Paths["/pets/mine"] = &PathItem{Get: &Operation{Security: &[]map[string][]string{{"bearer": {}}}, Responses: map[string]*Response{"200": {Description: Str("ok"), Content: JSONContent(&Schema{Type: "array", Items: str})}}}}
 		d.Paths["/"] = &PathItem{Get: MinimalOp()}
 		d.Paths["/files/"] = &PathItem{Get: MinimalOp()}
+		// an array of arrays as a component (rows may be nil), a redirect with a Location header
+		d.Components.Schemas["Grid"] = &Schema{Type: "array", Items: &Schema{Type: "array", Items: &Schema{Type: "integer", Format: "int64"}}}
+		d.Paths["/grids/{id}"] = &PathItem{
+			Parameters: []*Parameter{{Name: "id", In: "path", Required: true, Schema: &Schema{Type: "string"}}},
+			Get:        &Operation{Responses: map[string]*Response{"200": {Description: Str("ok"), Content: JSONContent(&Schema{Ref: RefSchemas + "Grid"})}}},
+			Put:        &Operation{RequestBody: &RequestBody{Required: true, Content: JSONContent(&Schema{Ref: RefSchemas + "Grid"})}, Responses: map[string]*Response{"200": {Description: Str("ok"), Content: JSONContent(&Schema{Ref: RefSchemas + "Grid"})}}},
+		}
+		d.Paths["/legacy/{id}"] = &PathItem{Get: &Operation{Parameters: []*Parameter{{Name: "id", In: "path", Required: true, Schema: &Schema{Type: "string"}}},
+			Responses: map[string]*Response{"301": {Description: Str("moved"), Headers: map[string]*Header{"Location": {Required: true, Schema: &Schema{Type: "string"}}}}, "200": {Description: Str("ok"), Content: JSONContent(&Schema{Type: "string"})}}}}
 		// a constant segment with multi-byte characters in front of variables
 		d.Paths["/caf\u00e9/{id}"] = &PathItem{Get: &Operation{Parameters: []*Parameter{{Name: "id", In: "path", Required: true, Schema: &Schema{Type: "integer"}}}, Responses: EmptyResponses()}}
 		d.Paths["/caf\u00e9/{id}/\u65e5\u672c/{item}"] = &PathItem{Get: &Operation{Parameters: []*Parameter{{Name: "id", In: "path", Required: true, Schema: &Schema{Type: "string"}}, {Name: "item", In: "path", Required: true, Schema: &Schema{Type: "string"}}}, Responses: EmptyResponses()}}
